@@ -33,6 +33,7 @@ def run(ctx):
     check_index_of_siblings(ctx, prog)
     check_model(ctx, prog)
     check_trim(ctx, prog)
+    check_valist(ctx, prog)
     import nullret
     nullret.check(ctx, prog, 'C03', ('String.cpp',))
     return __doc__.split('\n\n', 1)[1]
@@ -695,3 +696,51 @@ def check_trim(ctx, prog, rule='C03.trim'):
                       '%s: for a string of %d characters the scans can stop at %s and `%s` then has the length %d: a whitespace-only string yields a negative-length copy (memcpy with a negative size)' % (
                           f['q'], bad[0] if bad else 0, ', '.join('%s = %s' % (names.get(k_, k_), v_) for k_, v_ in sorted((bad[1] if bad else {}).items(), key=str)), pe(bad[3]) if bad else '', bad[2] if bad else 0))
     ctx.floor(rule, n, 1)
+
+
+def check_valist(ctx, prog):
+    """C03.valist: a va_list is consumed by the v*printf call it is passed to; formatting again (the retry with a larger buffer)
+    needs va_end + va_start (or a va_copy) in between, otherwise the second pass reads whatever follows the arguments.  Typestate
+    over the CFG of every String member that declares a va_list: fresh -> consumed by a call taking the list, consumed -> fresh
+    by va_start / va_copy; a consuming call in state `consumed` (or after va_end) is the violation."""
+    import cfg as cfgm
+    n = 0
+    for f in prog.functions:
+        if f.get('cls') != 'asl::String' or not f.get('body'):
+            continue
+        lists = [v for s_ in ir.walk_stmts(f['body']) if s_.get('k') == 'decl' for v in s_['vars'] if 'va_list' in (T(f, v['t']).get('s') or '')]
+        for v in lists:
+            n += 1
+            ctx.analysed(f)
+            g = cfgm.CFG(f)
+            role = '%s%s:va_list %s is restarted before it is formatted again' % (f['n'], f['sig'][:30], v.get('n'))
+            bad = []
+
+            def mentions(e):
+                return any(w.get('k') == 'var' and w.get('id') == v['id'] for a in e.get('a', []) for w in walk_expr(a))
+
+            def step(nd, st):
+                if nd.kind != 'ev' or nd.e is None or nd.e.get('k') != 'call' or not mentions(nd.e):
+                    return st
+                fn = nd.e.get('fn') or ''
+                if fn in ('__builtin_va_start', '__builtin_va_copy', '__builtin_c23_va_start'):
+                    first = strip(nd.e['a'][0])
+                    while first.get('k') in ('cast', 'paren'):
+                        first = strip(first['e'])
+                    return 'fresh' if first.get('id') == v['id'] else st
+                if fn == '__builtin_va_end':
+                    return 'ended'
+                if st != 'fresh':
+                    bad.append((nd.e.get('l', 0), fn, st))
+                return 'consumed'
+            reached, _ = cfgm.dataflow(g, 'none', step)
+            ctx.evaluations += sum(len(x) for x in reached.values())
+            real = [b for b in bad if b[2] in ('consumed', 'ended')]
+            if real:
+                ctx.violation('C03.valist', f['pq'], role, fwhere(f, real[0][0]), '`%s` formats from the va_list a second time on a path where it was already %s and not restarted (va_end + va_start): the retry with the larger buffer reads '
+                              'garbage arguments - the result differs from snprintf for every text that does not fit the first buffer' % (real[0][1], 'consumed by an earlier pass' if real[0][2] == 'consumed' else 'ended'))
+            elif bad:
+                ctx.undecided('C03.valist', f['pq'], role, fwhere(f, bad[0][0]), 'the va_list is used before a va_start was seen')
+            else:
+                ctx.ok('C03.valist', f['pq'], role, fwhere(f), 'every formatting pass starts from a fresh va_list on every path')
+    ctx.floor('C03.valist members with a va_list', n, 2)
